@@ -160,6 +160,16 @@ def _run_reference(args):
     execs.run_program(prog, sched, force, env=env)
     stats = {"reference_marginals": 0}
     for op in prog:
+        if op["op"] == "integrate" and op["out"] in env and op["a"] in env and op["b"] in env:
+            try:
+                out = execs.force_value(env[op["out"]], force)
+            except Exception:  # noqa
+                continue
+            stats["reference_integrals"] = stats.get("reference_integrals", 0) + 1
+            msg = refint.check_integral(env[op["a"]], env[op["b"]], out, list(op["vars"]), stats)
+            if msg:
+                return {"stats": stats, "message": "%s = Integrate(%s, %s, %s) under mode %s: %s" % (op["out"], op["a"], op["b"], op["vars"], mode, msg), "root": op["out"]}
+            continue
         if op["op"] != "reduce_real" or op["fn"] != "logaddexp" or op["out"] not in env or op["a"] not in env:
             continue
         try:
@@ -224,7 +234,7 @@ def enumerate_program(payload):
                 "replay_variant": {"record": True},
             }
         )
-    if any(op["op"] == "reduce_real" for op in prog) and payload.get("only") in (None, "reference"):
+    if any(op["op"] in ("reduce_real", "integrate") for op in prog) and payload.get("only") in (None, "reference"):
         ref = fork_call(_run_reference, ((prog, mode, payload.get("family")),), timeout=120)
         stats["runs"] += 1
         if ref.get("status") == "ok":
@@ -448,6 +458,7 @@ def summarize(jobs, results, tier):
         "verdicts": {"PASS": tot.get("pass", 0), "DECLINED": tot.get("declined", 0), "variant_fork_errors": tot.get("variant_errors", 0)},
         "reference_model_marginals": {
             "marginals_checked": tot.get("reference_marginals", 0),
+            "integrals_checked": tot.get("reference_integrals", 0),
             "points_compared_with_closed_form": tot.get("reference_points", 0),
             "points_where_model_is_silent": tot.get("reference_silent", 0),
             "points_where_funsor_raised": tot.get("reference_errors", 0),
